@@ -77,3 +77,21 @@ M("C16", "enclosing_no_round", "odc/geo/geobox.py", "        pix_bbox = self.pro
 M("C16", "union_uses_last_reference", "odc/geo/geobox.py", "    affine = reference.affine * Affine.translation(*bbox[:2])\n    return GeoBox(shape=bbox.shape, affine=affine, crs=reference.crs)\n\n\ndef geobox_intersection_conservative", "    affine = geoboxes[-1].affine * Affine.translation(*bbox[:2])\n    return GeoBox(shape=bbox.shape, affine=affine, crs=reference.crs)\n\n\ndef geobox_intersection_conservative", "union anchored at the wrong operand")
 M("C16", "scale_check_dropped", "odc/geo/geobox.py", "        numpy.isclose(sx, 1)\n        and numpy.isclose(z1, 0)", "        numpy.isclose(z1, 0)", "x scale compatibility not checked")
 M("C16", "bbox_round_floor_hi", "odc/geo/geom.py", "            math.floor(x0), math.floor(y0), math.ceil(x1), math.ceil(y1), crs=self._crs", "            math.floor(x0), math.floor(y0), math.ceil(x1), math.floor(y1), crs=self._crs", "BoundingBox.round floors the top")
+
+# ----------------------------------------------------------------------------- C02
+M("C02", "crop_swap_txy", "odc/geo/geobox.py", "        affine = self._affine * Affine.translation(tx, ty)\n        return shape_((ny, nx)), affine", "        affine = self._affine * Affine.translation(ty, tx)\n        return shape_((ny, nx)), affine", "compute_crop swaps tx,ty")
+M("C02", "flipy_uses_nx", "odc/geo/geobox.py", "        ny, _ = self._shape\n        A = Affine.translation(0, ny) * Affine.scale(1, -1)", "        _, ny = self._shape\n        A = Affine.translation(0, ny) * Affine.scale(1, -1)", "flipy uses nx")
+M("C02", "rotate_about_corner", "odc/geo/geobox.py", "        c0 = self._affine * (nx * 0.5, ny * 0.5)", "        c0 = self._affine * (0, 0)", "rotate about the corner")
+M("C02", "zoom_out_floor", "odc/geo/geobox.py", "        ny, nx = (max(1, math.ceil(s / factor)) for s in self.shape)", "        ny, nx = (max(1, math.floor(s / factor)) for s in self.shape)", "zoom_out floors the shape")
+M("C02", "pad_forgets_pady", "odc/geo/geobox.py", "        A = self._affine * Affine.translation(-padx, -pady)\n        shape = (ny + pady * 2, nx + padx * 2)\n        return GeoBox(shape, A, self._crs)", "        A = self._affine * Affine.translation(-padx, -padx)\n        shape = (ny + pady * 2, nx + padx * 2)\n        return GeoBox(shape, A, self._crs)", "GeoBox.pad shifts by padx on both axes")
+M("C02", "mul_rmul_swapped", "odc/geo/geobox.py", "        return GeoBox(self._shape, self._affine * transform, self._crs)", "        return GeoBox(self._shape, transform * self._affine, self._crs)", "__mul__ composes on the world side")
+M("C02", "from_transform_two_corners", "odc/geo/geom.py", "        pts = [transform * pt for pt in [(0, 0), (nx, 0), (nx, ny), (0, ny)]]", "        pts = [transform * pt for pt in [(0, 0), (nx, ny)]]", "bounding box from two corners (D10 re-introduced)")
+M("C02", "getitem_int_slice", "odc/geo/geobox.py", "            roi = (roi, slice(None, None))", "            roi = (slice(roi, roi + 1), slice(None, None))", "D23 re-introduced")
+M("C02", "coords_edge_labels", "odc/geo/geobox.py", "        xs = numpy.arange(nx) * rx + (tx + rx / 2)", "        xs = numpy.arange(nx) * rx + tx", "x labels at pixel edges")
+M("C02", "zoom_to_swapped_axes", "odc/geo/geobox.py", "        A = self._affine * Affine.scale(sx, sy)\n        return (shape, A)", "        A = self._affine * Affine.scale(sy, sx)\n        return (shape, A)", "zoom_to scales swapped")
+M("C02", "scaled_down_floor", "odc/geo/geobox.py", "    ny, nx = (X // scaler + (1 if X % scaler else 0) for X in src_geobox.shape)", "    ny, nx = (max(1, X // scaler) for X in src_geobox.shape)", "scaled_down_geobox drops the partial pixel")
+M("C02", "gcp_pad_wrong_sign", "odc/geo/gcp.py", "        A = self._affine * Affine.translation(-padx, -pady)\n        shape = (ny + pady * 2, nx + padx * 2)\n        return GCPGeoBox(shape, self._mapping, A)", "        A = self._affine * Affine.translation(padx, -pady)\n        shape = (ny + pady * 2, nx + padx * 2)\n        return GCPGeoBox(shape, self._mapping, A)", "GCP pad shifts x the wrong way")
+M("C02", "gcp_wld2pix_no_inverse", "odc/geo/gcp.py", "        x, y = self._mapping.w2p(x, y)\n        return (~self._affine) * (x, y)", "        x, y = self._mapping.w2p(x, y)\n        return self._affine * (x, y)", "GCP wld2pix applies the crop affine forwards")
+M("C02", "resolution_swapped_rot", "odc/geo/math.py", "    _, _, A_ = decompose_rws(A)\n    rx, _, _, _, ry, *_ = A_\n    return resxy_(rx, ry)", "    _, _, A_ = decompose_rws(A)\n    rx, _, _, _, ry, *_ = A_\n    return resxy_(ry, rx)", "rotated resolution swapped")
+M("C02", "translate_pix_world_side", "odc/geo/geobox.py", "        return self * Affine.translation(tx, ty)", "        return Affine.translation(tx, ty) * self", "translate_pix in world units")
+M("C02", "center_pixel_ceil", "odc/geo/geobox.py", "        return self[self.shape.map(lambda x: x // 2).yx]\n\n    @property\n    def compat", "        return self[self.shape.map(lambda x: (x - 1) // 2).yx]\n\n    @property\n    def compat", "centre pixel off by one for even sizes")
